@@ -781,6 +781,7 @@ func (u *Unit) indexAddr(st *State, fr *Frame, x *ssa.IndexAddr) {
 	case *types.Slice:
 		s := u.term(st, fr, x.X)
 		u.boundsOb(st, x, "index", And(Le(IntLit(0), i), Lt(i, App("vlen", SInt, s))))
+		u.instantiateAt(st, i)
 		fr.Vals[x] = Val{T: u.sliceElemAddr(s, i)}
 	case *types.Pointer:
 		arr := t.Elem().Underlying().(*types.Array)
